@@ -303,6 +303,28 @@ func variants(md protoreflect.MessageDescriptor, c *dynamicpb.Message, depth int
 			}
 		}
 	}
+	// implicit-presence scalars that are unset in c, written with their zero value (legal; decodes to the same message)
+	zeros := 0
+	for i := 0; i < md.Fields().Len() && zeros < 3; i++ {
+		fd := md.Fields().Get(i)
+		if fd.HasPresence() || fd.IsList() || fd.IsMap() || fd.Message() != nil || c.Has(fd) {
+			continue
+		}
+		var z wfield
+		switch wt := scalarWT(fd); wt {
+		case refwire.Varint:
+			z = wfield{num: int(fd.Number()), wt: wt, raw: append(refwire.AppendKey(nil, int(fd.Number()), wt), 0)}
+		case refwire.Fixed32:
+			z = wfield{num: int(fd.Number()), wt: wt, raw: refwire.AppendFixed32(refwire.AppendKey(nil, int(fd.Number()), wt), 0)}
+		case refwire.Fixed64:
+			z = wfield{num: int(fd.Number()), wt: wt, raw: refwire.AppendFixed64(refwire.AppendKey(nil, int(fd.Number()), wt), 0)}
+		default:
+			z = lenField(int(fd.Number()), nil)
+		}
+		zeros++
+		add(fmt.Sprintf("%s:explicit-zero", fd.Name()), append(append([]wfield{}, fs...), z))
+		add(fmt.Sprintf("%s:explicit-zero-first", fd.Name()), append([]wfield{z}, fs...))
+	}
 	// oneof: two members of the same oneof on the wire (last one wins)
 	for i := 0; i < md.Oneofs().Len(); i++ {
 		oo := md.Oneofs().Get(i)
